@@ -816,7 +816,11 @@ func opGlob(c *wire.Case, res *wire.Result) {
 				res.Panic = panicInfo(r)
 			}
 		}()
-		parsed := files.ParsePath(c.Pattern)
+		pattern := c.Pattern
+		if c.PatternB != nil {
+			pattern = string(c.PatternB)
+		}
+		parsed := files.ParsePath(pattern)
 		list = parsed.GetFileList(c.Dir)
 		// a parsed pattern is a value: asked again (and from another, empty place in between) it answers the same
 		parsed.GetFileList(c.Dir + "/no-such-directory-xq")
@@ -826,6 +830,9 @@ func opGlob(c *wire.Case, res *wire.Result) {
 		}
 	}()
 	res.Files = list
+	for _, f := range list {
+		res.FilesB = append(res.FilesB, []byte(f))
+	}
 }
 
 // ---- histories and concurrency ------------------------------------------------
